@@ -164,20 +164,28 @@ func runHw(c *hx.Ctx, r *hx.Rng) {
 		}
 		init[k] = r.PickS(hwValues)
 	}
+	act := "c"
+	switch k := r.Intn(100); {
+	case k < 8:
+		act = "d"
+	case k < 16:
+		act = "x"
+	}
+	hwDrive(c, act, route, vhost, global, init, shape)
+}
 
+// hwDrive builds the table from configuration through router.NewRouters and drives both directions of the matched rule.
+func hwDrive(c *hx.Ctx, act string, route, vhost, global hwLevel, init map[string]string, shape string) {
 	rt := v2.Router{}
 	rt.Match = v2.RouterMatch{Prefix: "/"}
 	rt.Route = v2.RouteAction{RouterActionConfig: v2.RouterActionConfig{ClusterName: "c",
 		RequestHeadersToAdd: route.reqA.optsA(), RequestHeadersToRemove: route.reqR.optsR(),
 		ResponseHeadersToAdd: route.respA.optsA(), ResponseHeadersToRemove: route.respR.optsR()}}
-	act := "c"
-	switch k := r.Intn(100); {
-	case k < 8:
+	switch act {
+	case "d":
 		rt.DirectResponse = &v2.DirectResponseAction{StatusCode: 200, Body: "b"}
-		act = "d"
-	case k < 16:
+	case "x":
 		rt.Redirect = &v2.RedirectAction{ResponseCode: 302, PathRedirect: "/p"}
-		act = "x"
 	}
 	cfg := &v2.RouterConfiguration{
 		RouterConfigurationConfig: v2.RouterConfigurationConfig{RouterConfigName: "c17hw",
@@ -230,7 +238,38 @@ func runHw(c *hx.Ctx, r *hx.Rng) {
 	c.Count(fmt.Sprintf("hw.incoming=%d", len(init)))
 }
 
+// fixed cases first (minimal configurations of past misses, independent of the seed)
+func hwFixed(c *hx.Ctx) {
+	rem := func(n ...string) hwList { return hwList{rems: n} }
+	ad := func(n, v string, app int) hwList { return hwList{adds: []add{{n, v, app}}} }
+	none := hwLevel{hwNil, hwNil, hwNil, hwNil}
+	in := map[string]string{"x-a": "1", "x-b": "2", "server": "up"}
+	for _, act := range []string{"c", "d", "x"} {
+		// one level configures only response removals (nil-parser case of a crossed wire), each level in turn
+		only := hwLevel{hwNil, hwNil, hwNil, rem("x-a")}
+		hwDrive(c, act, none, only, none, in, "fixed")
+		hwDrive(c, act, only, none, none, in, "fixed")
+		hwDrive(c, act, none, none, only, in, "fixed")
+		// request removal and response removal of different names at one level
+		both := hwLevel{hwNil, rem("x-a"), hwNil, rem("X-B")}
+		hwDrive(c, act, none, both, none, in, "fixed")
+		hwDrive(c, act, both, none, none, in, "fixed")
+		hwDrive(c, act, none, none, both, in, "fixed")
+		// additions of the two directions differ at one level
+		adds := hwLevel{ad("x-a", "q", 1), hwNil, ad("server", "mosn", 0), hwNil}
+		hwDrive(c, act, none, adds, none, in, "fixed")
+		hwDrive(c, act, adds, none, none, in, "fixed")
+		hwDrive(c, act, none, none, adds, in, "fixed")
+		// all three levels, both directions, distinct names per level and direction
+		hwDrive(c, act,
+			hwLevel{ad("x-a", "r", 1), rem("x-c"), ad("x-c", "r", 2), rem("x-a")},
+			hwLevel{ad("x-b", "v", 1), rem("server"), ad("server", "v", 1), rem("x-b")},
+			hwLevel{ad("x-c", "g", 0), rem("x-b"), ad("x-b", "g", 0), rem("x-c")}, in, "fixed")
+	}
+}
+
 func runPart4(c *hx.Ctx) {
+	hwFixed(c)
 	for i := 0; i < c.N(3000, 60000); i++ {
 		runHw(c, c.Rng)
 	}
